@@ -423,6 +423,7 @@ func c18Walk(b *c18Base, st *monstore.Store) (outcome string, err error) {
 		return "refused", nil
 	}
 	entries := 0
+	drainBuf := make([]byte, 32<<10)
 	var walk func(dir string, depth int) error
 	walk = func(dir string, depth int) error {
 		if depth > 12 {
@@ -458,8 +459,9 @@ func c18Walk(b *c18Base, st *monstore.Store) (outcome string, err error) {
 			if en.Type()&iofs.ModeSymlink != 0 {
 				continue
 			}
-			_, rerr, _ := readAllFS(fs, p, int(b.size))
-			if rerr != nil && rerr.Error() == "no progress" {
+			// drained through one shared buffer: what the harness itself allocates must not count as the
+			// library's memory use (an image that lists hundreds of garbage entries is walked entry by entry)
+			if c18Drain(fs, p, drainBuf, 2*b.size+(1<<20)) == "no progress" {
 				return fmt.Errorf("no-progress reading %s", p)
 			}
 			if entries < 40 {
@@ -676,4 +678,32 @@ func c18ResReg(m c18Mut) string {
 		return m.Region
 	}
 	return "time-memory-or-reads"
+}
+
+// c18Drain reads a file to its end (or limit bytes) through buf and reports how it ended.
+func c18Drain(fs filesystem.FileSystem, p string, buf []byte, limit int64) string {
+	f, err := fs.OpenFile(p, os.O_RDONLY)
+	if err != nil {
+		return "open-error"
+	}
+	defer f.Close()
+	var total int64
+	zero := 0
+	for steps := 0; steps < 1<<20; steps++ {
+		n, e := f.Read(buf)
+		total += int64(n)
+		if e != nil {
+			return "ended"
+		}
+		if n == 0 {
+			zero++
+			if zero > 8 {
+				return "no progress"
+			}
+		}
+		if total > limit {
+			return "limit"
+		}
+	}
+	return "too many steps"
 }
